@@ -50,11 +50,11 @@ ASSUMPTIONS = [
 
 
 def cfg(tier):
-    return Cfg(engines=(0,), max_ops=8 if tier == "quick" else 14, p_binary=0.22, avoid=frozenset(["D9", "D10", "D11"]))
+    return Cfg(engines=(0,), max_ops=8 if tier == "quick" else 14, p_binary=0.22, avoid=frozenset(["D9", "D10", "D11"]), prelude=0.5)
 
 
 def budget(tier):
-    return 2000 if tier == "quick" else 100000
+    return 6000 if tier == "quick" else 150000
 
 
 def strategy(tier):
@@ -97,6 +97,22 @@ def check_relation(env, node, rel, leaves, memo, rels, stats, label):
     return res
 
 
+def rule_stats(built, rels, stats):
+    """Which branch of the SQL engine's append rules each factory call exercised (statistics only)."""
+    from lsst.daf.relation.sql import Select
+
+    for node in built:
+        if node[0] in ("calc", "proj", "sel", "dedup", "sort", "slice"):
+            src = rels.get(id(node[1]))
+            if isinstance(src, Select):
+                state = "".join(
+                    c
+                    for c, on in (("S", src.has_sort), ("P", src.has_projection), ("D", src.has_deduplication), ("L", src.has_slice), ("U", src.is_compound))
+                    if on
+                )
+                stats.c[f"rule:{node[0]}-on-[{state}]"] += 1
+
+
 def run_case(case, stats):
     universe, leaves, prog = case
     env = Env(leaves)
@@ -117,6 +133,7 @@ def run_case(case, stats):
                 )
         memo = {}
         built = [n for n in walk(prog) if id(n) in rels and n[0] != "leaf"]
+        rule_stats(built, rels, stats)
         root_res = None
         for node in built:
             rel = rels[id(node)]
@@ -141,6 +158,31 @@ def run_case(case, stats):
 
 def describe(case):
     return describe_case(*case)
+
+
+EXHAUSTIVE_NOTE = (
+    "SELECT-rule matrix: every subset of {sort, projection, deduplication, slice} on the bases leaf / selection / chain / "
+    "join, followed by every one (quick) or every two (thorough; quick: leaf base only) operations of a fixed list of "
+    "13, on two fixed data sets (vf/core/matrix.py)"
+)
+
+
+def exhaustive(tier, stats, shard, nshards, run):
+    from vf.core.matrix import select_matrix
+
+    plans = [(1, ("leaf", "sel", "chain", "join")), (2, ("leaf",) if tier == "quick" else ("leaf", "sel", "chain", "join"))]
+    idx = 0
+    for steps, bases in plans:
+        for label, case in select_matrix(steps, 0, bases):
+            idx += 1
+            if idx % nshards != shard:
+                continue
+            try:
+                run(case)
+            except Violation as v:
+                v.case = case
+                raise
+            stats.c["matrix_cases"] += 1
 
 
 def attribute(case, v):
